@@ -231,7 +231,7 @@ func nodeOracle(r *rand.Rand, n int, tier string, infile string) (cases int, fai
 		}
 		var local []byte
 		peers := map[string]bool{}
-		dataSize := 0
+		dataSize, peerCap := 0, 0
 		nodeScenario(r, func(op string) string {
 			cases++
 			f := strings.Fields(op)
@@ -285,6 +285,7 @@ func nodeOracle(r *rand.Rand, n int, tier string, infile string) (cases int, fai
 			switch f[0] {
 			case "n-new":
 				local = hx.UnHex(f[1])
+				peerCap, _ = strconv.Atoi(f[2])
 				dataSize, _ = strconv.Atoi(f[3])
 				peers = map[string]bool{}
 			case "n-addpeer":
@@ -356,7 +357,27 @@ func nodeOracle(r *rand.Rand, n int, tier string, infile string) (cases int, fai
 					}
 				}
 			case "n-get":
-				checkList("the closer list of Get", hx.UnHex(f[1]), parse(field("closer")), true)
+				key, ids := hx.UnHex(f[1]), parse(field("closer"))
+				checkList("the closer list of Get", key, ids, true)
+				// … and ALL of them, whether or not the node holds a value for the key (keys no shorter than the ids: the
+				// short-key behaviour of the bucket index is the known finding of C19)
+				if len(key) >= len(local) {
+					listed := map[string]bool{}
+					for _, id := range ids {
+						listed[string(id)] = true
+					}
+					// "the locus" of a node whose peer cache is smaller than one slot per bit of its id is the id cut to
+					// PeerCacheSize/8 bytes (NewDHTNode): that is what "closer than the node" is measured against
+					locus := local
+					if peerCap < 8*len(local) {
+						locus = local[:peerCap/8]
+					}
+					for _, id := range st.n.ListPeers(0) {
+						if kademlia.DistanceLt(key, id[:], locus) && !listed[string(id[:])] {
+							bad("the closer list of Get omits %x…, a peer the node knows that is closer to the key than the node itself (value held: %v)", id[:4], field("value") != "-")
+						}
+					}
+				}
 			}
 			return res
 		})
